@@ -1,7 +1,16 @@
 """C14 check configuration (data only)."""
+import importlib.util
+import os
+
 from propbase import KERNEL, HARNESS
 
+_root = os.path.dirname(os.path.dirname(os.path.abspath(__file__)))
+_spec = importlib.util.spec_from_file_location("translate_c14impl", os.path.join(_root, "translate", "c14impl.py"))
+_c14impl = importlib.util.module_from_spec(_spec)
+_spec.loader.exec_module(_c14impl)
+
 PROP = {'gen': ['base64'],
+ 'pre_coq': [_c14impl.pre_coq],
  'coq_props': ['theories/Props/C14.vo'],
  'coq_corr': ['theories/Corr/C14Corr.vo'],
  'props_file': 'theories/Props/C14.v',
@@ -9,7 +18,12 @@ PROP = {'gen': ['base64'],
  'corr_check': 'SNT.Corr.C14Corr.c14_check (model Encoder/Base64.v vs surf_n_term::{encoder::Base64Encoder, decoder::Base64Decoder})',
  'level_text': 'Coq theorems over an executable model of Base64Encoder/Base64Decoder: encoder output = RFC 4648 text for every input and '
                'write partition; decoder returns the original bytes for every read schedule and every sequence of destination sizes; '
-               'non-multiple-of-4 text is an error; no panic / termination for arbitrary bytes. Tables are regenerated from the source '
+               'non-multiple-of-4 text is an error; no panic / termination for arbitrary bytes; ONE decoder consumed by any program of '
+               'std::io::Read operations (read n, read_exact, read_to_end/read_to_string, read_vectored, bytes(), take(n), BufReader '
+               'wrappers) hands out, in order, without repetition or loss, exactly the decoded bytes (C14_programs), and one encoder fed '
+               'by any program of write/write_all/write_fmt/write_vectored/flush then finish() yields the RFC text of the accepted bytes '
+               '(C14_encode_programs); the operations other than read / write / flush are modelled as the iterations of read / write '
+               'that the default methods of std are. Tables are regenerated from the source '
                'each run and the table lemmas re-checked; the model is tied to the code by a differential run that also observes the '
                'bytes delivered before an error (they must be a prefix of the decoding of the complete 4-character groups; checked '
                'per case, no theorem).',
@@ -28,9 +42,14 @@ PROP = {'gen': ['base64'],
                   'src/decoder.rs on every run (Gen/TabBase64.v)',
                   'hand-written model Encoder/Base64.v of Base64Encoder::{write,finish} and Base64Decoder::{buffer_fill,read}, tied to the '
                   'code by the correspondence run',
+                  'std::io default methods: read_exact, read_to_end, read_to_string, read_vectored, Bytes, Take, BufReader::fill_buf and '
+                  'write_all, write_fmt, write_vectored are iterations of read / write as defined in Encoder/Base64Prog.v; that the crate '
+                  'does not override them is anchored by translate/c14impl.py (pre_coq: fails the run when `impl Read for Base64Decoder` '
+                  'or `impl Write for Base64Encoder` gains a method, or a new public inherent method appears) and validated by the '
+                  'program cases of the correspondence run',
                   'Rust harness (generators, canonical printing of observations) and the case files it writes; differential testing '
                   'validates the model, it is not the theorem'],
  'assumptions': ['the inner reader signals end of input only by returning 0 and otherwise returns between 1 and the requested number of '
                  'bytes; io errors of the inner reader/writer are outside the model',
-                 'callers drain the decoder until a read returns 0 or an error; bytes a failing read call had already copied into the '
-                 "caller's buffer are not observed"]}
+                 'bytes a failing read call (or a read_exact that meets the end of input) had already copied into the caller\'s buffer are '
+                 'not observed']}
